@@ -375,7 +375,7 @@ def run(ctx):
 
     # ---- translator tie (T) for the post-processing stage behind the grammar (notes/C09C10-post.md)
     import parsepost_tie
-    parsepost_tie.run_x86(ctx, parser, [l for l, _ in CORPUS] + [t for _, _, t in wf])
+    parsepost_tie.run_x86(ctx, parser, [l for l, _ in CORPUS] + [t for _, _, t in wf], wf=wf)
 
     # ---- malformed stream
     mal = []
